@@ -195,6 +195,9 @@ def _run_structural(ctx):
     r2.check(pol.get("exclude") == "target not in self.endpoints", f"{epf.module.relpath}::{epf.qual}", "exclude drops endpoints", f"EndpointFilter exclude polarity is {pol.get('exclude')}", epf.where)
 
     # ---------------- R3 prompt dominates effects
+    # "the outputs of endpoint targets are kept": endpoints as the graph computes them (no phantom dependents entries, at any log level)
+    from .shared import import_rules
+    import_rules(ctx, r2, "C03", only={"R3"})
     r3 = ctx.rule("R3", "without targets and --force the confirmation prompt (abort on decline) precedes every effect")
     bad = None
     for kind, call, st in sem.events:
@@ -287,6 +290,9 @@ def _run_structural(ctx):
     from .evalhelpers import cached_witness, report_witness, workflow_api_witness
     report_witness(r5, "src/gwf/workflow.py::Workflow::protect", "src/gwf/workflow.py:1", cached_witness(ctx, "workflow-api", workflow_api_witness),
                    "Workflow.target / target_from_template keep protect entries whatever their spelling", select=lambda d: "protect" in d)
+    from .evalhelpers import one_shot_witness
+    report_witness(r5, "src/gwf/workflow.py::Workflow.target::protect-one-shot", "src/gwf/workflow.py:1", cached_witness(ctx, "one-shot", one_shot_witness),
+                   "protect given as a generator reaches the target complete", select=lambda d: "protect" in d)
 
 
 def run(ctx):
